@@ -99,7 +99,7 @@ def runRT (fixInf : Bool) (o : Opts) (text : Bytes) : String :=
     "ok " ++ sx e ++ " ; " ++ hexB printed ++ " ; " ++ a2 ++ " ; " ++ p2 ++ " ; " ++ hexB pretty ++ " ; " ++ a3 ++ " ; " ++ p3
 
 /-- The repaired printer (finding F13) is in force in /repo once fixes/F13.patch is applied. -/
-def repoFixedInf : Bool := false
+def repoFixedInf : Bool := true
 
 def modelLine (line : String) : String :=
   match toks line with
@@ -232,6 +232,10 @@ def SExp.features : SExp → List String
         (if ls.any (fun | .atom a => atomHasRC a | _ => false) then ["replacement-char-in-string"] else [])
       | [.atom "m", _, .atom n, .atom v] => if atomHasRC n || atomHasRC v then ["replacement-char-in-string"] else []
       | [.atom "str", .atom v] => if atomHasRC v then ["replacement-char-in-string"] else []
+      | [.atom "vs", _, _, .list [.atom "offe", x], atm, ext] =>
+        if startsWithParen 64 x && (atm.render != "-" || ext.render != "-") then ["offset-expr-moved-behind-modifier"] else []
+      | [.atom "sub", _, _, _, _, _, .list [.atom "offe", x], atm] =>
+        if startsWithParen 64 x && atm.render != "-" then ["offset-expr-moved-behind-modifier"] else []
       | [.atom "offe", .list (.atom "dur" :: .atom "2b" :: _ :: .atom "-" :: _)] => ["offset-expr-sign-dropped"]
       | [.atom "offe", .list [.atom "dur", .atom _, .atom "0", .list l, _]] =>
         if startsWithParen 64 (.list l) then [] else ["offset-expr-sign-dropped"]
@@ -243,7 +247,7 @@ def featuresEach : List SExp → List String
  end
 
 def kindOrder : List String :=
-  ["inf-literal-unary-plus", "label-lexed-as-keyword", "replacement-char-in-string", "offset-expr-sign-dropped", "duration-literal-truncated", "submillisecond-duration"]
+  ["inf-literal-unary-plus", "label-lexed-as-keyword", "replacement-char-in-string", "offset-expr-sign-dropped", "offset-expr-moved-behind-modifier", "duration-literal-truncated", "submillisecond-duration"]
 
 def kindOf (a : SExp) : String :=
   let fs := a.features
